@@ -65,8 +65,12 @@ impl WireReq {
     }
 }
 
+fn secure_scheme(scheme: &str) -> bool {
+    matches!(scheme.to_ascii_lowercase().as_str(), "https" | "wss")
+}
+
 fn default_port(scheme: &str) -> u16 {
-    if matches!(scheme, "https" | "wss") {
+    if secure_scheme(scheme) {
         443
     } else {
         80
@@ -75,7 +79,13 @@ fn default_port(scheme: &str) -> u16 {
 
 fn draw_req(r: &mut Rng, id: u32, client_tls: bool) -> WireReq {
     let https = client_tls && r.chance(1, 2);
-    let scheme = if https { "https" } else { "http" }.to_string();
+    // schemes are case-insensitive; ws/wss share the defaults of http/https
+    let scheme = if https {
+        *r.weighted(&[(6, "https"), (2, "wss"), (1, "Wss"), (1, "HTTPS")])
+    } else {
+        *r.weighted(&[(6, "http"), (2, "ws"), (1, "WS"), (1, "Http")])
+    }
+    .to_string();
     let authority = if https { r.pick(&AUTHS_HTTPS).to_string() } else { r.pick(&AUTHS_HTTP).to_string() };
     let q = *r.pick(&QUERIES);
     let mut headers = vec![];
@@ -187,13 +197,13 @@ impl Scenario for WireSim {
                     plans.insert(q.id, HandlerPlan { resp_len: 20, ..HandlerPlan::default() });
                 }
                 let plans = Arc::new(plans);
-                let mut origins: Vec<String> = case.reqs.iter().map(|q| q.origin()).collect();
+                let mut origins: Vec<String> = case.reqs.iter().map(|q| q.origin().parse::<http::Uri>().map(|u| origin_key(&u)).unwrap_or_else(|_| q.origin())).collect();
                 origins.sort();
                 origins.dedup();
                 let mut servers = vec![];
                 for o in &origins {
                     let acc = net.listen(o);
-                    let tls = if o.starts_with("https") {
+                    let tls = if o.starts_with("https") || o.starts_with("wss") {
                         let alpn: &[&str] = if case.server_alpn_h2 { &["h2", "http/1.1"] } else { &["http/1.1"] };
                         Some(tlsfix::server_config(tlsfix::CertKind::Good, alpn))
                     } else {
@@ -202,7 +212,7 @@ impl Scenario for WireSim {
                     let ctx = HandlerCtx { net: net.clone(), log: log.clone(), plans: plans.clone(), origin: o.clone() };
                     servers.push(tokio::task::spawn_local(run_server(acc, case.server_proto, tls, ctx, SimExecutor::default(), None)));
                 }
-                let any_tls = origins.iter().any(|o| o.starts_with("https"));
+                let any_tls = origins.iter().any(|o| o.starts_with("https") || o.starts_with("wss"));
                 let svc = super::build_client(&net, &case.client, any_tls);
                 let results: Arc<Mutex<BTreeMap<u32, Res>>> = Arc::new(Mutex::new(BTreeMap::new()));
                 let mut tasks = vec![];
@@ -271,7 +281,7 @@ impl Scenario for WireSim {
                 Ok(u) => u,
                 Err(_) => continue,
             };
-            let https = q.scheme == "https";
+            let https = secure_scheme(&q.scheme);
             // ---- protocol of the connection this request arrived on
             let conn = conns.iter().find(|c| c.0 == s.conn);
             let alpn_h2 = https && case.client.alpn_h2 && case.server_alpn_h2;
